@@ -350,7 +350,12 @@ class Nodes:
         Returns: (ScalarNode) The new node
         """
         minus_sign = "-" if value < 0.0 else None
-        strval = format(value, '.15f').rstrip('0').rstrip('.')
+        strval = format(value, '.15f').rstrip('0')
+        if strval.endswith('.'):
+            # Keep one decimal digit for integral values lest the wrong
+            # precision and width cause a different number (or an
+            # unloadable scalar) to be written when this node is dumped
+            strval += '0'
         precision = 0
         width = len(strval)
         lastdot = strval.rfind(".")
